@@ -6,11 +6,14 @@
    termination is permanent and the exit error is the one of the first Exit; the flip takes all
    hooks, so a terminated process holds none (no hook can be taken twice) and its values from before
    are gone; hooks run in reverse registration order (the frame is [rev taken]).
-   The log-level clauses (each registered hook appears exactly once with the process's error, cascade
-   to descendants, Join) are evaluated on the implementation and the model by the correspondence run
-   on complete states. *)
+   C04_exactly_once is the log-level clause: by a conservation argument (every hook an AddExitHook call
+   brought in is registered, or waiting in a frame of a thread that runs exit hooks, or in the log -
+   exactly one of the three) each hook is entered at most once in any interleaving, only after its
+   process has terminated and with that process's exit error, and exactly once when no thread has
+   anything left to run.  Cascade to descendants and Join are evaluated on the implementation and
+   the model by the correspondence run on complete states. *)
 From Coq Require Import List NArith ZArith Bool Lia.
-From Uf Require Import Process.Process Process.ProcessProofs.
+From Uf Require Import Process.Process Process.ProcessProofs Process.OnceProofs.
 Import ListNotations.
 
 (* from termination on, status and error never change, whatever any thread does *)
@@ -42,6 +45,23 @@ Theorem C04_terminated_holds_no_hooks : forall n ops p,
 Proof. intros n ops. apply (p_run_nohooks n ops). Qed.
 Print Assumptions C04_terminated_holds_no_hooks.
 
+(* every exit hook runs exactly once, with its process's exit error, and not before the process terminates -
+   for every interleaving (by any number of threads, at the granularity of the status flip and user-hook
+   entries) of New / Fork / AddExitHook / Exit / hook returns / SetValue / RemoveValue whose thread and process
+   numbers exist (ok_from) and whose hooks are distinct objects (NoDup of the ids that took effect):
+   lg = number of log entries of the hook, reg = number of registrations of the hook over all processes *)
+Theorem C04_exactly_once : forall n ops,
+  ok_from (p_init n) ops -> NoDup (map fst (added (p_init n) ops)) ->
+  let st := p_run n ops in
+  (forall h, lg st h <= 1) /\
+  (forall h e pid, In (h, e) (hlog st) -> In (h, pid) (added (p_init n) ops) ->
+     p_term (get_proc st pid) = true /\ e = p_err (get_proc st pid)) /\
+  ((forall t, In t (threads st) -> t_frames t = []) ->
+   forall h pid, In (h, pid) (added (p_init n) ops) ->
+     if p_term (get_proc st pid) then lg st h = 1 else lg st h = 0 /\ reg st h = 1).
+Proof. exact exactly_once. Qed.
+Print Assumptions C04_exactly_once.
+
 (* non-vacuity: two threads, a fork, a concurrent Exit with another error while a hook is held,
    a hook added after termination *)
 Example C04_ex :
@@ -49,4 +69,12 @@ Example C04_ex :
               PExit 0 0 4; PExit 1 0 2; PAddHook 1 0 5; PStep 0; PStep 1; PStep 0; PStep 0] in
   hlog (p_run 2 ops) = [(3, 4); (5, 4); (2, 4); (1, 4)] /\
   map (fun p => (p_term p, p_err p, p_wait p)) (procs (p_run 2 ops)) = [(true, 4, 0); (true, 4, 0)].
+Proof. vm_compute. split; reflexivity. Qed.
+
+(* the history above meets the hypotheses of C04_exactly_once, and ends with no thread running *)
+Example C04_ex_hyps :
+  let ops := [PNew; PAddHook 0 0 1; PAddHook 0 0 2; PFork 0 0; PAddHook 0 1 3;
+              PExit 0 0 4; PExit 1 0 2; PAddHook 1 0 5; PStep 0; PStep 1; PStep 0; PStep 0] in
+  added (p_init 2) ops = [(1, 0); (2, 0); (3, 1); (5, 0)] /\
+  map t_frames (threads (p_run 2 ops)) = [[]; []].
 Proof. vm_compute. split; reflexivity. Qed.
